@@ -36,16 +36,46 @@
       bypass flag; and [C16_bypass_needs_block]: a TunnelSent that does leave
       a blocking side carries the bypass flag AND some earlier BlockOutgoing
       action of that side allowed bypass.
-    PARTIAL in one respect: "the bypass flag may only be honoured when every
-    action that started or updated the blocking allowed bypass" is proved
-    about the simulator's own blocking state ([C16_no_leak] with
-    [C16_block_rule]: the flag is set by a start or replace and and-ed by an
-    extension), not restated over the trace alone, because a BlockingBegin may
-    be reported after a packet it legitimises at the same instant; the monitor
-    replays the actions and checks that rule on generated runs. *)
+    - [C16_bypass_all]: the remaining clause at the level of whole runs, in
+      terms of the returned trace and the actions only: "bypass is honoured
+      only when EVERY action that started or updated the current blocking
+      allowed bypass". The blocking descriptor (expiry, all contributors
+      allowed bypass) of a side is REPLAYED from the reported BlockingBegin /
+      BlockingEnd events and the actions that caused them ([replayX], rule
+      [replay_begin_r] = the contract rule of [C16_block_rule] read as a
+      function). Every TunnelSent of every run is then justified: (1) the
+      replay says the side is not blocking, or (2) it blocks, every
+      contributor allowed bypass and the packet carries the bypass flag, or
+      (3) the same holds one step ahead, for the one BlockingBegin of that
+      side that fired in that very instant and is reported right after the
+      packet, or (4) the run was cut within that instant. [C16_contributors]
+      unfolds the flag: it is the conjunction over the list of contributing
+      actions [replayC] (start or replace: the action alone; an extension:
+      added; a begin that does not move the expiry: not a contributor), each
+      of which is the cause of a BlockingBegin of that side reported since the
+      last BlockingEnd.
+      The statement with the literal contract rule was REFUTED while proving
+      ([C16_literal_rule_refuted]): a zero-duration REPLACING block sets the
+      expiry to "now", the expiry has priority over the queue, so BlockingEnd
+      is reported before the still-queued BlockingBegin and the side is not
+      blocking afterwards, while the literal replay restarts a blocking that
+      nothing ends. This is the replacing half of known finding F8; the
+      theorem uses the rule with that corner resolved the way the simulator
+      resolves it ([replay_begin_r]), and holds for every run.
+    - [C16_end_trace]: the BlockingEnd half at the level of whole runs, with
+      the same replay: (E1) every BlockingEnd is reported exactly at the
+      expiry the replay computes; (E2) simulated time never moves past the
+      replayed expiry while the replay says blocking (the end is reported
+      first); (E3) between two BlockingEnd of a side there is a BlockingBegin
+      of that side (exactly one end per blocking); (E4) every BlockingEnd is
+      preceded by a BlockingBegin of that side with no BlockingEnd between
+      (the end comes after the begin) -- each except in the zero-duration
+      replace corner of F8 ([SimBlockEnd.zero_replace_corner]: the end is
+      reported early and the BlockingBegin of a zero-duration replacing action
+      follows in the same instant, or the run was cut there). *)
 From MB Require Import Model.Framework Model.Sim.
 From MB Require Import Proofs.SimReach.
-From MB Require Proofs.SimBlocking Proofs.SimTrace Proofs.SimHistory Proofs.SimActionTrace Proofs.SimBlockTrace Proofs.SimFailClosed.
+From MB Require Proofs.SimBlocking Proofs.SimTrace Proofs.SimHistory Proofs.SimActionTrace Proofs.SimBlockTrace Proofs.SimFailClosed Proofs.SimBypassAll Proofs.SimBlockEnd.
 Import ListNotations.
 Open Scope N_scope.
 
@@ -182,3 +212,96 @@ Theorem C16_bypass_needs_block : forall fuel cc sc tp tr delay pps args out,
         In a' (SimHistory.h_acts rj') /\ SimFailClosed.block_bypass a' = true.
 Proof. exact SimFailClosed.blocked_side_tunnel_sent_needs_bypass_block. Qed.
 Print Assumptions C16_bypass_needs_block.
+
+Theorem C16_bypass_all : forall fuel cc sc tp tr delay pps args out,
+  SimHistory.full_args args ->
+  sim_advanced fuel cc sc tp (parse_trace tr delay) delay pps args = Ok out ->
+  exists H : list SimHistory.hrec, out = map SimHistory.h_ev H /\
+  exists f : nat -> nat,
+    (forall k rk m, nth_error H k = Some rk ->
+       (se_ev (SimHistory.h_ev rk) = TEPaddingSent m \/ se_ev (SimHistory.h_ev rk) = TEBlockingBegin m) ->
+       SimActionTrace.caused_by H k rk m (f k)) /\
+    forall k rk, nth_error H k = Some rk -> se_ev (SimHistory.h_ev rk) = TETunnelSent ->
+      let X := se_client (SimHistory.h_ev rk) in
+      let b0 := SimBypassAll.replayX X f H k in
+      b0 = None \/
+      (exists u, b0 = Some (u, true) /\ se_bypass (SimHistory.h_ev rk) = true) \/
+      (exists j rj m, (k < j)%nat /\ nth_error H j = Some rj /\ se_ev (SimHistory.h_ev rj) = TEBlockingBegin m /\
+         se_client (SimHistory.h_ev rj) = X /\ se_time (SimHistory.h_ev rj) = se_time (SimHistory.h_ev rk) /\
+         (forall i ri, (k < i < j)%nat -> nth_error H i = Some ri -> se_client (SimHistory.h_ev ri) = X ->
+            SimActionTrace.is_complb (SimHistory.h_ev ri) = false) /\
+         (exists a, SimBypassAll.act_of H (f j) m = Some a /\
+            SimBypassAll.replayX X f H (S j) = SimBypassAll.replay_begin_r b0 (se_time (SimHistory.h_ev rk)) a) /\
+         let b1 := SimBypassAll.replayX X f H (S j) in
+         b1 = None \/ (exists u, b1 = Some (u, true) /\ se_bypass (SimHistory.h_ev rk) = true)) \/
+      (forall i ri, (k < i)%nat -> nth_error H i = Some ri ->
+         se_time (SimHistory.h_ev ri) = se_time (SimHistory.h_ev rk) /\
+         (se_client (SimHistory.h_ev ri) = X -> SimActionTrace.is_complb (SimHistory.h_ev ri) = false)).
+Proof. exact SimBypassAll.bypass_all_replay_partial. Qed.
+Print Assumptions C16_bypass_all.
+
+(** what the flag of the replay means: the conjunction over the contributing actions, each the cause
+    of a BlockingBegin of that side reported since the last BlockingEnd *)
+Theorem C16_contributors : forall X f H k u,
+  SimBypassAll.replayX X f H k = Some (u, true) ->
+  exists cs, SimBypassAll.replayC X f H k = Some (u, cs) /\
+    (forall a, In a cs -> SimFailClosed.block_bypass a = true) /\
+    (forall a, In a cs ->
+       exists i ri m, (i < k)%nat /\ nth_error H i = Some ri /\ se_ev (SimHistory.h_ev ri) = TEBlockingBegin m /\
+         se_client (SimHistory.h_ev ri) = X /\ SimBypassAll.act_of H (f i) m = Some a /\
+         forall i' ri', (i < i' < k)%nat -> nth_error H i' = Some ri' -> ~ SimBlockTrace.is_bend X (SimHistory.h_ev ri')).
+Proof.
+  intros X f H k u E.
+  destruct (SimBypassAll.replay_flag_true_all X f H k u E) as (cs & Ec & Hall).
+  exists cs. split; [exact Ec|]. split; [exact Hall|].
+  intros a Ha. exact (SimBypassAll.replayC_sound X f H k u cs Ec a Ha).
+Qed.
+Print Assumptions C16_contributors.
+
+(** the literal contract rule is refuted by a zero-duration replacing block (the replacing half of
+    known finding F8): a real run whose release #8 no cause assignment can justify under [replay_begin] *)
+Lemma C16_literal_rule_refuted :
+  exists cc sc tp sq delay args (H : list SimHistory.hrec),
+    sim_advanced 200 cc sc tp sq delay None args = Ok (map SimHistory.h_ev H) /\
+    forall f : nat -> nat,
+      (forall k rk m, nth_error H k = Some rk ->
+         (se_ev (SimHistory.h_ev rk) = TEPaddingSent m \/ se_ev (SimHistory.h_ev rk) = TEBlockingBegin m) ->
+         SimActionTrace.caused_by H k rk m (f k)) ->
+      exists rk, nth_error H 8 = Some rk /\ se_ev (SimHistory.h_ev rk) = TETunnelSent /\
+        ~ SimBypassAll.claim SimBypassAll.replay_begin f H 8 rk.
+Proof.
+  destruct SimBypassAll.stated_target_refuted as (_ & _ & A & _ & B).
+  do 7 eexists. split; [exact A|].
+  intros f Hf. destruct (B f Hf) as (rk & R1 & R2 & _ & _ & R3). exists rk. auto.
+Qed.
+
+(** non-vacuity of clause (2): a bypass padding leaves a blocking built by two bypass-allowing actions *)
+Example C16_bypass_all_nonvacuous := SimBypassAll.bypass_all_case2_two_contributors.
+
+Theorem C16_end_trace : forall fuel cc sc tp tr delay pps args out,
+  SimHistory.full_args args ->
+  sim_advanced fuel cc sc tp (parse_trace tr delay) delay pps args = Ok out ->
+  exists H, out = map SimHistory.h_ev H /\ exists f : nat -> nat,
+    (forall k rk m, nth_error H k = Some rk ->
+       (se_ev (SimHistory.h_ev rk) = TEPaddingSent m \/ se_ev (SimHistory.h_ev rk) = TEBlockingBegin m) ->
+       SimActionTrace.caused_by H k rk m (f k)) /\
+    (forall j rj, nth_error H j = Some rj -> se_ev (SimHistory.h_ev rj) = TEBlockingEnd ->
+       (exists u fl, SimBypassAll.replayX (se_client (SimHistory.h_ev rj)) f H j = Some (u, fl) /\
+                     se_time (SimHistory.h_ev rj) = u) \/
+       SimBlockEnd.zero_replace_corner (se_client (SimHistory.h_ev rj)) f H j rj) /\
+    (forall X k rk u fl, nth_error H k = Some rk -> SimBypassAll.replayX X f H k = Some (u, fl) ->
+       (se_time (SimHistory.h_ev rk) <= u)%Z) /\
+    (forall j1 j2 r1 r2, (j1 < j2)%nat -> nth_error H j1 = Some r1 -> nth_error H j2 = Some r2 ->
+       se_ev (SimHistory.h_ev r1) = TEBlockingEnd -> se_ev (SimHistory.h_ev r2) = TEBlockingEnd ->
+       se_client (SimHistory.h_ev r1) = se_client (SimHistory.h_ev r2) ->
+       (exists i ri m, (j1 < i < j2)%nat /\ nth_error H i = Some ri /\ se_ev (SimHistory.h_ev ri) = TEBlockingBegin m /\
+          se_client (SimHistory.h_ev ri) = se_client (SimHistory.h_ev r2)) \/
+       SimBlockEnd.zero_replace_corner (se_client (SimHistory.h_ev r2)) f H j2 r2) /\
+    (forall j rj, nth_error H j = Some rj -> se_ev (SimHistory.h_ev rj) = TEBlockingEnd ->
+       (exists i ri m, (i < j)%nat /\ nth_error H i = Some ri /\ se_ev (SimHistory.h_ev ri) = TEBlockingBegin m /\
+          se_client (SimHistory.h_ev ri) = se_client (SimHistory.h_ev rj) /\
+          forall i' ri', (i < i' < j)%nat -> nth_error H i' = Some ri' ->
+            ~ (se_ev (SimHistory.h_ev ri') = TEBlockingEnd /\ se_client (SimHistory.h_ev ri') = se_client (SimHistory.h_ev rj))) \/
+       SimBlockEnd.zero_replace_corner (se_client (SimHistory.h_ev rj)) f H j rj).
+Proof. exact SimBlockEnd.blocking_end_trace. Qed.
+Print Assumptions C16_end_trace.
